@@ -1,5 +1,6 @@
 """C06 - conditional compilation selects exactly the right lines, in place (structural clauses)."""
 import re
+import decisions
 
 from mirlib import AnchorMissing, path_matches, op_place
 from helpers import (aggregates, arm, branches_on_call, enum_switches, field_accesses, loop_of, must_pass, vexpr)
@@ -328,3 +329,4 @@ def run(ctx):
     ctx.run_rule('C06.4b', 'T1', 'directive text is only consumed by tokenising; bad directive names are errors', r_directive_mode_consumption, prog)
     ctx.run_rule('C06.4c', 'T9', 'lexer progress and end-of-input state change', c01.r_lexer_eof_state, prog)
     ctx.run_rule('C06.5', 'T13', 'conditions under which the preprocessor lexer consumes, returns and switches modes (precondition ledger)', r_lexer_preconditions, prog)
+    ctx.run_rule('C06.6', 'T2', 'preprocessed text is handed back exactly when parsing succeeded without errors', decisions.r_parser_entries, prog, ('preprocessor',))
